@@ -896,6 +896,20 @@ pub fn check_c20(h: &mut Hist, ctx: &mut Ctx) {
     if by_hash != by_height {
         problems.push("announced-header indexes disagree".into());
     }
+    // the height index is what the sync decision reads (highest announced height): a height with
+    // no header left, or a header filed under another height than its own, falsifies that reading
+    for (height, v) in bk.next_by_height.iter() {
+        if v.is_empty() {
+            problems.push(format!("the announced-header height index keeps height {} although no header is left at it", height));
+        }
+        for b in v.iter() {
+            if let Some((_, hh, _)) = bk.next_by_hash.iter().find(|(x, _, _)| x == b) {
+                if hh != height {
+                    problems.push(format!("an announced header of height {} is filed under height {}", hh, height));
+                }
+            }
+        }
+    }
     for (b, height, _) in bk.next_by_hash.iter() {
         if live_set.contains(&to_h(b)) {
             problems.push("announced header kept although its block arrived".into());
